@@ -34,7 +34,8 @@ _SEEN_M1 = set()          # controller exchange keys seen in M1 by this process 
 def _world_consts():
     if not _W:
         from harness.refacc import accessory as A
-        ident = A.Identity(seed=bytes(range(32)))
+        # real pairing ids look like "C2:9B:0A:..."; this one has upper-case hex letters, lower-case letters and digits
+        ident = A.Identity(acc_id="C2:9B:0a:fE:d7:45", seed=bytes(range(32)))
         ctrl = A.ControllerIdentity(seed=bytes(range(1, 33)))
         _W["ident"] = ident
         _W["pd"] = ident.pairing_data(ctrl, hosts=("10.0.0.1",))
@@ -109,8 +110,8 @@ def run_job(job):
                 acc.m3_seen = True
                 info["m3_verdict"] = world.check_m3(items)
             m4 = case["m4"]
-            return T.enc({"ok": [(T.STATE, b"\x04")], "wrong": [(T.STATE, b"\x02")],
-                          "auth": [(T.STATE, b"\x04"), (T.ERROR, b"\x02")]}[m4])
+            return T.enc({"ok": [(T.STATE, b"\x04")], "wrong": [(T.STATE, b"\x02")], "empty": [(T.STATE, b"")],
+                          "trailing": [(T.STATE, b"\x04\xff")], "auth": [(T.STATE, b"\x04"), (T.ERROR, b"\x02")]}[m4])
         return None
 
     acc = D.ScriptedAccessory(ident=ident, hook=hook)
@@ -285,7 +286,8 @@ def _jobs(ctx, cases, lens):
             if r["corrupt"] != "none":
                 n = lens[(r["corrupt"], r["enc"], r["id"])]
                 if near and tr == "gen":
-                    for how in K.corruptions(n, rng, every=ctx.thorough):
+                    # every single bit and every byte of the field, in every tier (cheap on the generator)
+                    for how in K.corruptions(n, rng, every=True):
                         jobs.append(dict(j, how=how))
                     continue
                 elif near:
